@@ -54,6 +54,7 @@ class Plan:
         self.nontrivial = lambda sc: True
         self.assumptions = []
         self.exhaustive = False
+        self.level = "model_checking"
 
 
 def drawing_calls(sc):
@@ -139,6 +140,61 @@ def plan_for(prop, tier, seed):
             ("overhead-fills", True, "dev", lambda ids, rng: G.f_tiny_placement(ids, rng, ifaces=("rec", "spi"), sample=0.05 if q else 0.5)
                                             + G.f_oob_rects(ids, rng, G.tiny_model_list([(4, 3), (7, 5)], rng, 3 if q else 30), ifaces=("spi",))),
         ]
+    elif prop == "C06":
+        p.rule = ("case = one interface-level call on the real SpiInterface (buffer length, words per pixel, count / pixel list / "
+                  "parameter list); non-trivial: count is 0, a multiple of the buffer capacity, or spans more than one buffer; "
+                  "or a parameter list longer than 0")
+        p.nontrivial = lambda sc: True
+        p.families = [
+            ("spi-grid", True, "dev", lambda ids, rng: G.f_spi_grid(ids, rng, sample=0.5 if q else 1.0, big=6 if q else 120)),
+            ("spi-displays", True, "dev", lambda ids, rng: G.f_tiny_placement(ids, rng, ifaces=("spi",), sample=0.04 if q else 0.4)),
+        ]
+    elif prop == "C07":
+        p.rule = ("case = word sequences / repeat counts on the real ParallelInterface (8 and 16 pins) and set_value histories "
+                  "with injected data-pin failures; non-trivial: equal consecutive words, an all-equal repeated pixel, or a failure")
+        p.nontrivial = lambda sc: True
+        p.families = [
+            ("parallel", True, "dev", lambda ids, rng: G.f_parallel(ids, rng, sample=0.4 if q else 1.0, big=2 if q else 12)),
+            ("parallel-displays", True, "dev", lambda ids, rng: G.f_tiny_placement(ids, rng, ifaces=("p8", "p16"), sample=0.03 if q else 0.3)),
+        ]
+    elif prop == "C09":
+        p.rule = ("case = (width, height, offset_x, offset_y, framebuffer, reset pin) given to Builder::init; non-trivial: the "
+                  "tuple is within one unit of an acceptance boundary, contains a zero, or offset + size exceeds 65535")
+        p.nontrivial = lambda sc: True
+        p.families = [
+            ("init-grid", True, "dev", lambda ids, rng: G.f_init_grid(ids, rng, nrandom=3000 if q else 60000, grid_sample=0.3 if q else 3.0)),
+        ]
+    elif prop in ("C11", "C17"):
+        p.rule = ("case = (model, interface kind, colour order, orientation, inversion, refresh order, reset pin); all 14 models x "
+                  "every kind they accept or refuse, through Builder::init on real and recording transports and through "
+                  "Model::init directly where the colour type hides the pairing from Builder")
+        p.nontrivial = lambda sc: True
+        p.families = [
+            ("model-init", True, "dev", lambda ids, rng: G.f_model_init(ids, rng, full=not q)),
+        ]
+    elif prop == "C12":
+        p.level = "fault_enumeration"
+        p.rule = ("case = (driver operation, model, transport, index k of the failing low-level operation); every k of every SPI "
+                  "call in the quick tier and a seeded sample on the parallel transports, every k everywhere in the thorough tier")
+        p.nontrivial = lambda sc: bool(sc.get("faults"))
+        p.families = [
+            ("faults", True, "dev", lambda ids, rng: {"bases": G.fault_bases(ids, rng, q)}),
+        ]
+    elif prop == "C13":
+        p.rule = ("case = history over {sleep, wake, draw, set_orientation, scroll, tearing, clear} after init of a model; "
+                  "non-trivial: at least two sleep/wake calls")
+        p.nontrivial = lambda sc: sum(1 for c in sc["calls"] if c["name"] in ("sleep", "wake")) >= 2
+        p.families = [
+            ("lifecycle", True, "dev", lambda ids, rng: G.f_lifecycle(ids, rng, n_per_model=6 if q else 80, length=12 if q else 30)),
+            ("model-init", True, "dev", lambda ids, rng: G.f_model_init(ids, rng, full=False, after=False)),
+        ]
+    elif prop == "C16":
+        p.rule = ("case = (top, bottom) / offset on a model's framebuffer height; non-trivial: within one of the height boundary, "
+                  "or top + bottom > 65535")
+        p.nontrivial = lambda sc: True
+        p.families = [
+            ("scroll", True, "dev", lambda ids, rng: G.f_scroll(ids, rng, nrandom=300 if q else 6000, offsets="sample" if q else "all")),
+        ]
     else:
         raise ToolError("no plan for property %s" % prop)
     return p
@@ -168,6 +224,19 @@ def execute_families(p, seed, workdir, only_build=None):
     for (name, batch, profile, g) in p.families:
         rng = random.Random("%d/%s/%s" % (seed, p.prop, name))
         scs = g(ids, rng)
+        if isinstance(scs, dict):      # two-phase family: measure the fault-free runs first, then expand
+            binary = run.build_harness(batch, profile)
+            bases = scs["bases"]
+            lines = run.exec_scenarios(binary, [{k: v for k, v in sc.items() if not k.startswith("_")} for sc in bases],
+                                       workdir, name + "-probe")
+            nf = {}
+            for ln in lines:
+                if ln.startswith('{"k":"call"'):
+                    r = json.loads(ln)
+                    nf[(r["id"], r["i"])] = r["nf"] if r["res"] == "ok" else 0
+            scs = []
+            for b in bases:
+                scs += gen.fault_expand(ids, rng, b, nf.get((b["id"], b["_target"]), 0))
         uniq = []
         for sc in scs:
             h = run.scenario_hash(sc) + ("b" if batch else "n") + profile
@@ -270,7 +339,7 @@ def check(prop, tier, seed):
         mc_states = sum(r["states"] for r in mc_res)
         mc_trans = sum(r["transitions"] for r in mc_res)
         ev = {
-            "property_id": prop, "tier": tier, "seed": seed, "level": "model_checking",
+            "property_id": prop, "tier": tier, "seed": seed, "level": p.level,
             "coverage": {
                 "states": mc_states + tstates, "transitions": mc_trans + ttrans,
                 "mc_states": mc_states, "mc_transitions": mc_trans,
